@@ -131,3 +131,25 @@ fn k13_extend_bounded_i16() {
     assert!(qv.get(j) == Some((vals[j] & 3) as u8));
     assert!(qv.get(3).is_none());
 }
+
+/// K11: QVectorIterator::next over a 1-line quad vector, symbolic cursor (including past the end)
+#[kani::proof]
+fn k11_qvector_iter() {
+    let line = DataLine { words: kani::any() };
+    let len: usize = kani::any();
+    kani::assume(len <= 256);
+    let qv = QVector { data: vec![line].into_boxed_slice(), position: 2 * len };
+    let i0: usize = kani::any();
+    let mut it = QVectorIterator { i: i0, qv: &qv };
+    let r = it.next();
+    if i0 < len {
+        assert!(r == Some(slot(&line, i0)));
+        assert!(it.i == i0 + 1);
+    } else {
+        assert!(r.is_none());
+        assert!(it.i == i0);
+        assert!(it.next().is_none());
+        kani::cover!(i0 == usize::MAX);
+    }
+    kani::cover!(i0 == 255 && len == 256);
+}
